@@ -31,6 +31,33 @@ Definition const_sort_key (c : cst) : string :=
   | CBool b => "boolean:" +++ (if b then "true" else "false")
   end.
 
+(* compareConst = String.prototype.localeCompare (ICU root collation), on the alphabet of the sort keys: punctuation
+   ( _ - : . in that order) before digits before letters; letters compare without case first, lower case before upper
+   case as a tie-break; a prefix sorts first.  Checked against Node on every run by the byte-stream comparison. *)
+Definition coll_primary (c : ascii) : N :=
+  let n := N_of_ascii c in
+  if N.eqb n 95 then 1 else if N.eqb n 45 then 2 else if N.eqb n 58 then 3 else if N.eqb n 46 then 4
+  else if N.leb 48 n && N.leb n 57 then 10 + (n - 48)
+  else if N.leb 97 n && N.leb n 122 then 30 + (n - 97)
+  else if N.leb 65 n && N.leb n 90 then 30 + (n - 65)
+  else 100 + n.
+Definition coll_upper (c : ascii) : N := let n := N_of_ascii c in if N.leb 65 n && N.leb n 90 then 1 else 0.
+Fixpoint lex_cmp (a b : list N) : comparison :=
+  match a, b with
+  | [], [] => Eq
+  | [], _ => Lt
+  | _, [] => Gt
+  | x :: a', y :: b' => match N.compare x y with Eq => lex_cmp a' b' | c => c end
+  end.
+Definition collate_leb (a b : string) : bool :=
+  let la := list_ascii_of_string a in
+  let lb := list_ascii_of_string b in
+  match lex_cmp (map coll_primary la) (map coll_primary lb) with
+  | Lt => true
+  | Gt => false
+  | Eq => match lex_cmp (map coll_upper la) (map coll_upper lb) with Gt => false | _ => true end
+  end.
+
 Definition is_optional (r : rt) : bool := match r with ROptional _ => true | _ => false end.
 (* metadata is invisible to hash256, so is the RMeta node of the model; instanceof looks through it *)
 Fixpoint strip_meta_top (r : rt) : rt := match r with RMeta _ t => strip_meta_top t | _ => r end.
@@ -106,7 +133,7 @@ Section Enc.
           let sorted := sort_strings fs in
           Ok (w_tag "numberWithFormat" ++ w_nat (List.length sorted) ++ List.concat (map w_string sorted), st)
       | RAnyOfConsts cs =>
-          let sorted := sort_by (fun a b => str_leb (const_sort_key a) (const_sort_key b)) cs in
+          let sorted := sort_by (fun a b => collate_leb (const_sort_key a) (const_sort_key b)) cs in
           Ok (w_tag "anyOfConsts" ++ w_nat (List.length sorted) ++ List.concat (map w_const sorted), st)
       | RTuple prefix rest =>
           do p <- seq st prefix;
